@@ -511,3 +511,16 @@ PROPS['C13'] = dict(
     trace=dict(module='DiffChunksTrace', cfg='DiffChunksTrace.cfg', stack='256m'),
     assumptions=['TLC; DiffChunks.tla stage conditions as transcription of the property; ModelNew transcribes mdiff.New',
                  'exhaustive over the TLC-enumerated space of pairs x all context sizes 0..MaxN; seeded random beyond (incl. n larger than every gap)'])
+
+# --------------------------------------------------------------------------
+# C14 mdiff text formats
+PROPS['C14'] = dict(
+    mc=[dict(module='DiffFormatMC', cfg='DiffFormatMC_fixed.cfg', workers=8),
+        dict(module='DiffFormatMC', cfg='DiffFormatMC_f6.cfg', workers=2, expect_violation=True),
+        dict(module='DiffChunksMC', cfg=('DiffChunksMC_c14_q.cfg', 'DiffChunksMC_q.cfg'), emit=True, workers=8)],
+    trace=dict(module='DiffFormatTrace', cfg='DiffFormatTrace_fixed.cfg', stack='256m'),
+    asis=dict(module='DiffFormatTrace', cfg='DiffFormatTrace_asis.cfg', stack='256m'),
+    assumptions=['TLC; DiffFormat.tla: range semantics of the normal/unified/context formats as published and as GNU patch applies them (strict, no fuzz)',
+                 'the Go driver lexes formatter output into hunks (numbers as written, tagged body lines) without interpreting ranges',
+                 'known findings F5 (reader: omitted count read as 0) and F6 (writer: empty unified range spelled with the following line) are attributed by the same specification with Conv={F5,F6}',
+                 'lines never contain newlines; line strings include empty lines and lines that look like diff syntax'])
